@@ -44,6 +44,12 @@ type Component struct {
 	Serial bool
 	// Stats (optional) lets a component add measured distribution counters.
 	Stats func(lines, outs []string, d map[string]int)
+	// Timing: the component lock-steps real timers (e.g. the client's progress ticker against a
+	// witness ticker), so on a loaded machine a single run can observe a firing one op early or late.
+	// Cases are deterministic apart from that, hence a disagreement or monitor hit of such a component
+	// counts only if it shows again when the identical case is re-run; hits that do not are counted in
+	// the distribution as `unreproduced_*` (visible in the evidence), never reported.
+	Timing bool
 }
 
 type Violation struct {
@@ -294,6 +300,19 @@ func main() {
 					continue
 				}
 				var mm *Mismatch
+				unrepro := 0
+				if at >= 0 && c.Timing {
+					// confirm by re-running the identical case twice
+					for k := 0; k < 2 && at >= 0; k++ {
+						l2, o2 := safeRun(c, j.cs)
+						mo2, a2, _, e2 := compareWithModel(c, m, l2, o2)
+						if e2 == nil && a2 < 0 {
+							at = -1
+							unrepro++
+							lines, outs, mouts = l2, o2, mo2
+						}
+					}
+				}
 				if at >= 0 {
 					// shrink: the predicate re-runs both sides
 					pred := func(cand Case) bool {
@@ -317,6 +336,22 @@ func main() {
 				if c.Monitor != nil {
 					for _, v := range c.Monitor(lines, outs, m) {
 						vv := v
+						if c.Timing {
+							again := 0
+							for k := 0; k < 2; k++ {
+								l2, o2 := safeRun(c, j.cs)
+								for _, v2 := range c.Monitor(l2, o2, m) {
+									if v2.Property == vv.Property && v2.Known == vv.Known {
+										again++
+										break
+									}
+								}
+							}
+							if again < 2 {
+								unrepro++
+								continue
+							}
+						}
 						// shrink monitor failures too (same property, same known-signature)
 						pred := func(cand Case) bool {
 							if c.Valid != nil && !c.Valid(cand.Lines) {
@@ -350,6 +385,9 @@ func main() {
 				mu.Lock()
 				res.Cases++
 				res.Ops += len(lines)
+				if unrepro > 0 {
+					res.Distribution["unreproduced_timing_artefacts"] += unrepro
+				}
 				res.BadOps += bad
 				res.Distribution["case_len_"+bucket(len(lines))]++
 				for i, l := range lines {
